@@ -126,7 +126,7 @@ def lut_op(b, kind, x, out_q=None):
 
 def lut_mixed(rng, idx, variant=None):
     """[narrow tables ...] [wide table] [narrow operator that re-uses an earlier table] ..."""
-    layout = _pick(rng, variant, ["branches", "chain", "branches", "chain_softmax"])
+    layout = _pick(rng, variant, ["branches", "chain", "branches", "chain_softmax", "chain", "chain_softmax2"])
     b = B(rng, f"pat{idx}_lut_mixed", "int8")
     shp = [1, rng.randint(1, 8), rng.randint(1, 8), rng.choice([4, 8, 16])]
     n_narrow = rng.choice([2, 2, 3, 4, 5, 8])
@@ -199,6 +199,14 @@ def lut_mixed(rng, idx, variant=None):
     if layout == "chain_softmax":
         # the 1 KiB table: 8-bit SOFTMAX lowers to a chain with a 256 x int32 exponent table
         cur = b.unary("SOFTMAX", cur)
+    elif layout == "chain_softmax2":
+        # the same 1 KiB exponent table needed twice (equal input scale and beta), with narrow tables around it
+        q_s = (1.0 / 16, 0)
+        cur = b.unary("SOFTMAX", requant(cur, "int8", q_s))
+        if rng.random() < 0.5:
+            k = rng.randrange(n_narrow)
+            cur = narrow(requant(cur, "int8", kinds[k][1]), k)
+        cur = b.unary("SOFTMAX", requant(cur, "int8", q_s))
     else:
         cur = requant(cur, "int16", (rand_scale(rng, -12, -9), 0))
         cur = lut_op(b, wide, cur, (1.0 / 32768, 0) if wide == "EXP" else None)
